@@ -83,3 +83,9 @@ Proof.
   split; [vm_compute; lia|]. split; [|vm_compute; repeat split; reflexivity].
   vm_compute. repeat (constructor; [simpl; intuition discriminate|]). constructor.
 Qed.
+
+Example C20_loop_nonvacuous :
+  let hs := [[5; 40]; [20; 70]; [30; 90]]%Z in
+  loop_answers hs 2 10%Z = Some [1; 2] /\ loop_answers (ins 1 [12; 60]%Z hs) 2 10%Z = Some [1; 2]
+  /\ Forall (fun h => h <> []) (ins 1 [12; 60]%Z hs).
+Proof. split; [vm_compute; reflexivity|]. split; [vm_compute; reflexivity|]. repeat constructor; discriminate. Qed.
